@@ -369,7 +369,7 @@ def _w_signal(ctx):
     for a in g.x.atoms_on('AtomicSignal.flags', ops=WRITE_OPS):
         v = g.strip(g.call_args(a.nid)[1])
         okm = a.op == 'fetch_and' and v[0] in ('un', 'c')
-        ctx.add('W10', 'T-FLOW', fl, okm, 'clear_epoch only masks the epoch bit', where=g.where(a.nid), sub='clear_epoch')
+        ctx.add('W10', 'T-FLOW', fl, okm, 'clear_epoch only masks the epoch bit' if okm else 'clear_epoch does not merely mask the epoch bit (%s of the whole signal word): it wipes the sticky no-reader bit, after which sends succeed again although every receiver is gone' % a.op, where=g.where(a.nid), sub='clear_epoch')
     # W7: who writes num_consumers
     cands = fns_mentioning(F, 'ReaderMeta', 'num_consumers')
     ctx.floor('W7', len(cands), 3, 'functions naming ReaderMeta.num_consumers')
